@@ -85,3 +85,7 @@ impl<'a> ConnectionMatrix<'a> {
         self.num_right
     }
 }
+
+// verification hook: harness text lives outside the repository (see MANIFEST.hooks)
+#[cfg(any(kani, sudachi_verif))]
+include!(concat!(env!("SUDACHI_VERIF_DIR"), "/dic__connect.rs"));
